@@ -48,6 +48,8 @@ def run(model, rep):
     del NOTES[:]
     rep.rule('C12.ESC', 'quoting classes abstractly run on crafted strings: what reaches eval() is a closed literal')
     esc_enum(model, rep)
+    rep.rule('C12.FOLD', 'the folding transform abstractly run on arithmetic over every operand kind: only closed literal text reaches eval()')
+    fold_enum(model, rep)
     # positive control for the zero-expected parts
     overlay = dict(model.overlay)
     overlay['src/python_minifier/_pmstatic_control.py'] = CONTROL
@@ -165,6 +167,7 @@ def classify_sink(model, cg, fi, c, kind, reach):
         # every caller must hand in printed literal arithmetic
         pidx = fi.positional.index(arg.id)
         n_callers = 0
+        by_enum = []
         for q2 in sorted(reach):
             f2 = model.funcs[q2]
             for c2 in calls(f2.node):
@@ -173,9 +176,14 @@ def classify_sink(model, cg, fi, c, kind, reach):
                     a = c2.args[pidx] if len(c2.args) > pidx else kwarg(c2, arg.id)
                     ok, why = literal_arith_text(model, cg, f2, a, c2)
                     if not ok:
+                        if only_from_folder(model, cg, f2, reach):
+                            by_enum.append(f2.qual.split('.', 2)[-1])
+                            continue
                         return False, 'caller %s passes %s: %s' % (f2.qual, src(a), why)
         if n_callers == 0:
             return False, 'no caller found for the eval wrapper'
+        if by_enum:
+            return True, 'I3: eval(text, {}, {}) wrapper; %d callers, of which %s run only inside the folding transform: the text they pass is decided by the C12.FOLD enumeration' % (n_callers, sorted(set(by_enum)))
         return True, 'I3: eval(text, {}, {}) wrapper; all %d callers pass the printed form of literal-only arithmetic' % n_callers
     # I1: quote + S + quote
     parts = []
@@ -212,10 +220,38 @@ def classify_sink(model, cg, fi, c, kind, reach):
                     NOTES.append('escaper %s.%s is not in table form (%s): decided by the C12.ESC enumeration' % (fi.cls.rsplit('.', 1)[1], en, why))
             return True, 'I1: %s + escaped + %s; escapers %s map the quote and the backslash' % (src(q1), src(q2), sorted(escapers))
     # I2: eval(s) with s accumulated from self._literals()
+    ENUMERATED = ('python_minifier.ministring.MiniString', 'python_minifier.f_string.Str', 'python_minifier.f_string.Bytes')
+    why = 'argument %s matches no idiom' % src(arg)
     if isinstance(arg, ast.Name):
         ok, why = literals_idiom(model, cg, fi, arg.id)
-        return ok, why
-    return False, 'argument %s matches no idiom' % src(arg)
+        if ok:
+            return ok, why
+    if fi.cls in ENUMERATED and fi.name == '__str__' and len(c.args) == 1 and not c.keywords:
+        # the quoting code of this class is run on crafted strings by C12.ESC, which inspects every text that reaches this eval()
+        NOTES.append('eval in %s.__str__ is not in one of the recognised accumulation shapes (%s): what reaches it is decided by the C12.ESC enumeration' % (fi.cls.rsplit('.', 1)[1], why))
+        return True, 'E: %s.__str__ is run on crafted strings by C12.ESC, every text reaching this eval() is inspected there' % fi.cls.rsplit('.', 1)[1]
+    return False, why
+
+
+def only_from_folder(model, cg, f, reach, depth=0, seen=None):
+    """f is a method of FoldConstants, or a function of the folding module all of whose callers are: everything it does happens inside
+    FoldConstants.__call__, which the C12.FOLD enumeration runs."""
+    FMOD = 'python_minifier.transforms.constant_folding'
+    seen = seen or set()
+    if f.qual in seen:
+        return True
+    seen.add(f.qual)
+    if f.module != FMOD or depth > 4:
+        return False
+    if f.cls == FMOD + '.FoldConstants':
+        return True
+    callers = []
+    for q3 in sorted(reach):
+        f3 = model.funcs[q3]
+        for c3 in calls(f3.node):
+            if any(t is f for (t, _r) in cg.resolve_call(f3, None, c3)):
+                callers.append(f3)
+    return bool(callers) and all(only_from_folder(model, cg, f3, reach, depth + 1, seen) for f3 in callers)
 
 
 def literal_arith_text(model, cg, f2, a, call):
@@ -691,3 +727,45 @@ def esc_enum(model, rep):
         rep.ok('C12.ESC', where, 'quoting code abstractly run on %d crafted strings (quote runs, backslashes, newlines, comment/operator tails)' % n_cells,
                'every text that reaches eval() is a closed string/bytes literal or does not parse', cells=n_cells, key='C12.ESC|enum')
     rep.floor('C12.ESC', 1)
+
+
+# ---------------------------------------------------------------------- FOLD: what the folding transform hands to eval() (enumerated)
+FOLD_OPERANDS = ['a', 'exit', 'f()', 'a.b', 'a[0]', "'s'", "b's'", "f'{a}'", "f's'", '[1]', '(1,)', '{1: 2}', '{1}', '(lambda: 1)', 'None', '...', '-1', '(1 if a else 2)', '(1 < 2)', '(a and 1)',
+                 '[x for x in a]', '__import__', "__import__('os')", '(yield)', 'True', '2', '1.5', '1j']
+FOLD_OPS = ['+', '*', '%', '|', '/', '**', '<<', '@']
+
+
+def fold_enum(model, rep):
+    from .c07 import FOLD, fold_run
+    fi = model.func(FOLD)
+    cells = 0
+    literal_texts = 0
+    bad = []
+    for op in (FOLD_OPS if rep.tier == 'thorough' else FOLD_OPS[:3]):
+        lines = []
+        for a in FOLD_OPERANDS:
+            for b in ('1', a, 'b'):
+                lines.append('%s %s %s' % (a, op, b))
+                lines.append('%s %s %s' % (b, op, a))
+                lines.append('(%s %s %s) %s 2' % (a, op, b, op))
+        lines += ['(1e308 * 10) - (1e308 * 10)', '(1e308 * 10) * 0', '1e308 * 10 %s 1' % op]
+        src_ = 'def g():\n' + ''.join('    v%d = %s\n' % (i, l) for i, l in enumerate(lines))
+        evaluated = []
+        tree, out = fold_run(model, src_, evaluated=evaluated)
+        cells += len(lines)
+        literal_texts += sum(1 for (_t, ok) in evaluated if ok)
+        for (text, ok) in evaluated:
+            if not ok:
+                bad.append((op, text))
+    seen = set()
+    for (op, text) in bad:
+        if text in seen or len(seen) >= 5:
+            continue
+        seen.add(text)
+        rep.violation('C12.FOLD', fi.loc(), 'eval(%r)' % text[:60], 'the folding transform evaluates text taken from the input that is not a closed literal expression (names, calls, attribute access, '
+                      'subscripts or displays are looked up / built while minifying)', key='C12.FOLD|' + text[:60])
+    if literal_texts == 0:
+        raise AnalysisError('the folding enumeration evaluated no text at all: it does not reach the eval sink')
+    if not bad:
+        rep.ok('C12.FOLD', fi.loc(), 'FoldConstants on %d binary expressions over %d operand kinds x %d operators; %d texts reached eval()' % (cells, len(FOLD_OPERANDS), len(FOLD_OPS), literal_texts),
+               'every text is a closed literal expression', cells=cells, key='C12.FOLD|enum')
